@@ -269,6 +269,11 @@ func cmdCheck(args []string) int {
 		*cross = spec.Cross
 	}
 	opts.CrossKind = *cross
+	// fail fast: on a tree that breaks the property the first candidates decide the verdict; exploring on
+	// only multiplies them (GOSYM_ALLVIOL=1 explores everything)
+	if os.Getenv("GOSYM_ALLVIOL") == "" {
+		opts.StopAfterViol = 40
+	}
 	if opts.MaxSteps == 0 {
 		opts.MaxSteps = 5000000
 	}
@@ -317,7 +322,14 @@ func cmdCheck(args []string) int {
 		if st.PathLimitHit {
 			total.PathLimitHit = true
 		}
+		if st.StoppedEarly {
+			total.StoppedEarly = true
+		}
+		stopNow := st.StoppedEarly
 		fmt.Printf("  %-44s paths=%d ends=%v obligations=%d discharged=%d candidates=%d known=%d queries=%d%s wall=%.1fs\n", h, st.Paths, st.ByEnd, st.Obligations, st.Discharged, st.NViol, st.NKnown, st.Queries, crossNote(st), st.Wall.Seconds())
+		if stopNow {
+			break
+		}
 	}
 
 	// collect witnesses for native replay
@@ -476,6 +488,9 @@ func cmdCheck(args []string) int {
 	if total.PathLimitHit {
 		inconclusive = append(inconclusive, "path limit reached: exploration truncated")
 	}
+	if total.StoppedEarly {
+		inconclusive = append(inconclusive, "exploration stopped early after the first candidate violations (remaining harnesses and paths not explored)")
+	}
 	sort.Strings(inconclusive)
 	for i, l := range inconclusive {
 		if i >= 12 {
@@ -528,7 +543,7 @@ func cmdCheck(args []string) int {
 			"models_stubs":                  spec.Models,
 			"known_findings_reported":       len(knownPrinted),
 			"spurious_witnesses":            spurious,
-			"exhaustive":                    !total.PathLimitHit && len(total.Unsupported) == 0 && len(total.BoundMsgs) == 0,
+			"exhaustive":                    !total.PathLimitHit && !total.StoppedEarly && len(total.Unsupported) == 0 && len(total.BoundMsgs) == 0,
 			"explanation":                   "bounded symbolic execution of the SSA of /repo's current working tree (regenerated on this run); every obligation is a z3 query over all values of the symbolic inputs within the stated bounds",
 			"ssa_load_s":                    p.LoadTime.Seconds(),
 		},
